@@ -160,6 +160,33 @@ def equal_descs(tier, rng):
                 yield td
 
 
+TEXT_UNIV = ["s:caf\u00e9", "s:\U0001f600\u4e2d", "s:\udce9lone", "s:ctl\x01\x1f\x7f", "s:q\"b\\s/", "s:ls\u2028\u2029", "e:1", "s:plain"]
+TEXT_KINDS = ["k\u00fc\u2028", "a", "\U0001f600"]
+TEXT_META = {"m\u00e9ta": "v\u2028\udc80", "plain": ["\U0001f600", "caf\u00e9"], "q\"": {"\\": "\x01"}}
+
+
+def text_descs(tier, rng):
+    """text flavours in node data / tree name / kinds / meta: non-ASCII BMP, astral, LONE SURROGATES (os.fsdecode of
+    undecodable bytes), control characters, quotes and backslashes, U+2028/2029.  The written JSON must be pure ASCII
+    (json's default ensure_ascii) so that it survives every target encoding."""
+    shapes = [sh for n in range(1, 4 if tier == "quick" else 5) for sh in H.forests(n)]
+    for j, shape in enumerate(shapes):
+        n = H.shape_size(shape)
+        for rep in range(2):
+            typed = (j + rep) % 2 == 1
+            perm = rng.sample(range(len(TEXT_UNIV)), n)
+            nodes = B.shape_to_nodes(shape, lambda i, d, s: (perm[i], TEXT_KINDS[rng.randrange(3)] if typed else None,
+                                                             rng.choice([None, None, "id\u00e9\udc80"]) if i == 0 else None))
+            only_str = all(TEXT_UNIV[p].startswith("s:") for p in perm)
+            td = dict(typed=typed, univ=TEXT_UNIV, nodes=nodes, name=rng.choice(["T", "n\u00e4me\udcff", TEXT_UNIV[perm[0]][2:]]),
+                      calc=None, mapper=rng.choice(["cb", "derived"] + (["none"] if only_str else [])),
+                      km=KMS[j % 3], vm=["true", "false"][rep], meta=dict(TEXT_META) if (j + rep) % 3 else None)
+            if td["mapper"] == "derived" and typed:
+                td["vm"] = "false"       # the derived class' value list for "kind" does not list these kinds
+            if valid_desc(td):
+                yield td
+
+
 def falsy_descs():
     """every falsy data value as plain data and as a clone, with and without explicit data_id, in Tree and TypedTree,
     callback and derived-class mappers (and the built-in default mapper for "")"""
@@ -266,7 +293,7 @@ class Prop:
         for fd in falsy_descs():
             yield dict(fd, kind="save")
             yield dict(fd, kind="load", shuffle=False)
-        for fd in list(dw_descs(tier, rng)) + list(retarget_descs(tier, rng)) + list(equal_descs(tier, rng)):
+        for fd in list(dw_descs(tier, rng)) + list(retarget_descs(tier, rng)) + list(equal_descs(tier, rng)) + list(text_descs(tier, rng)):
             yield dict(fd, kind="save")
             yield dict(fd, kind="load", shuffle=False)
         for td in self.tree_descs(tier, rng):
@@ -328,6 +355,10 @@ class Prop:
             text = fp.getvalue()
             got = json.loads(text)
             obs = [[0, S.jv_sx(got)], S.jv_sx(got)]
+            if not text.isascii():
+                bad = next(c for c in text if ord(c) > 127)
+                fail = (f"writer: the JSON text is not pure ASCII (character U+{ord(bad):04X} written verbatim): it does not survive a "
+                        f"target that is not UTF-8, nor lone surrogates on a path target")
         except Exception as e:  # noqa: BLE001
             got = None
             obs = [[1, S.err_class(e)], []]
@@ -335,7 +366,7 @@ class Prop:
             exp = None if desc.get("outside") else self.expected_doc(desc, tree)
         except Exception as e:  # noqa: BLE001 (value not covered by the value_map ...)
             exp = None
-        if exp is not None:
+        if exp is not None and not fail:
             if got is None:
                 fail = f"writer: save failed with error class {obs[0][1]} although the layout is defined"
             elif got != exp:
